@@ -32,6 +32,7 @@ type ServeRec struct {
 	ReturnEv   int
 	Err        error
 	Cancel     context.CancelFunc
+	Ctx        context.Context // the context handed to Serve
 	ClientEnd  *End // the client-side end of the server's connection (direct topology)
 	ServerEnd  *End
 }
@@ -67,7 +68,7 @@ func clientName(i int) string { return fmt.Sprintf("cli%d", i) }
 func (n *Net) startServe(name string, end goat.RpcReadWriter) *ServeRec {
 	e := n.E
 	ctx, cancel := context.WithCancel(context.Background())
-	sr := &ServeRec{Name: name, Cancel: cancel}
+	sr := &ServeRec{Name: name, Cancel: cancel, Ctx: ctx}
 	if en, ok := end.(*End); ok {
 		sr.ServerEnd = en
 	}
